@@ -26,6 +26,7 @@ import (
 	"os"
 	"os/exec"
 	"path/filepath"
+	"reflect"
 	"regexp"
 	"sort"
 	"strconv"
@@ -661,6 +662,15 @@ func c15Exec(w *c15World, docSpec, call map[string]any) (res string) {
 				opts = append(opts, openapi3gen.ThrowErrorOnCycle())
 			case "components":
 				opts = append(opts, openapi3gen.CreateComponentSchemas(openapi3gen.ExportComponentSchemasOptions{ExportComponentSchemas: true}))
+			case "customizer":
+				// a per-call callback that edits every schema the generator produces
+				opts = append(opts, openapi3gen.SchemaCustomizer(func(name string, t reflect.Type, tag reflect.StructTag, schema *openapi3.Schema) error {
+					schema.Description = "c15:" + name + ":" + t.Kind().String()
+					if schema.Type != nil && schema.Type.Is("string") {
+						schema.MinLength = 1
+					}
+					return nil
+				}))
 			}
 		}
 		ref, err := openapi3gen.NewSchemaRefForValue(c15GenValues[t], schemas, opts...)
@@ -674,9 +684,38 @@ func c15Exec(w *c15World, docSpec, call map[string]any) (res string) {
 	return "unknown call kind"
 }
 
+// ---------------------------------------------------------------- process-wide registries
+
+var c15RegOnce sync.Once
+
+// c15Registries fills the library's process-wide registries (string / integer formats, body decoders) once, at the
+// start of the child process, before any goroutine is started: registration is not among the concurrent calls, the
+// READS of the registries by concurrent validations are.
+func c15Registries() {
+	c15RegOnce.Do(func() {
+		openapi3.DefineStringFormatValidator("c15fmt", openapi3.NewRegexpFormatValidator(`^[a-c]+$`))
+		openapi3.DefineIntegerFormatValidator("c15even", openapi3.NewCallbackValidator(func(v int64) error {
+			if v%2 != 0 {
+				return fmt.Errorf("odd")
+			}
+			return nil
+		}))
+		openapi3filter.RegisterBodyDecoder("application/x-c15", func(body io.Reader, _ http.Header, _ *openapi3.SchemaRef, _ openapi3filter.EncodingFn) (any, error) {
+			var v any
+			dec := json.NewDecoder(body)
+			dec.UseNumber()
+			if err := dec.Decode(&v); err != nil {
+				return nil, &openapi3filter.ParseError{Kind: openapi3filter.KindInvalidFormat, Cause: err}
+			}
+			return v, nil
+		})
+	})
+}
+
 // ---------------------------------------------------------------- one case (child side)
 
 func runC15Child(c hx.Case) any {
+	c15Registries()
 	docSpec, _ := c["doc"].(map[string]any)
 	calls := jlist(c["calls"])
 	g, per, rounds := c15Int(c["g"]), c15Int(c["per"]), c15Int(c["rounds"])
@@ -1011,6 +1050,11 @@ func c15TypeListSchema(tl []any) map[string]any {
 }
 
 func (g *c15Gen) scalar() map[string]any {
+	if g.lists && g.r.Chance(12) {
+		// entries of the process-wide format registries (custom ones registered at process start, and built-in ones)
+		return hx.Pick(g.r, []map[string]any{{"type": "string", "format": "c15fmt"}, {"type": "integer", "format": "c15even"},
+			{"type": "integer", "format": "int32"}, {"type": "string", "format": "date-time"}})
+	}
 	if g.lists && g.r.Chance(18) {
 		if g.r.Bool() {
 			return c15TypeListSchema(hx.Pick(g.r, c15TypeLists))
@@ -1326,6 +1370,9 @@ func (g *c15Gen) doc(nops int) map[string]any {
 			switch g.r.Intn(5) {
 			case 0, 1, 4:
 				op["body"] = map[string]any{"mt": "application/json", "schema": jsonSchema()}
+				if g.lists && g.r.Chance(30) {
+					op["body"].(map[string]any)["mt"] = "application/x-c15" // decoder registered at process start
+				}
 			case 2:
 				op["body"] = map[string]any{"mt": "multipart/form-data", "schema": g.formSchema()}
 			case 3:
@@ -1436,8 +1483,8 @@ func (g *c15Gen) call(kind string, doc map[string]any) map[string]any {
 		if b, ok := op["body"].(map[string]any); ok {
 			bs := b["schema"].(map[string]any)
 			switch jstr(b, "mt") {
-			case "application/json":
-				c["ct"] = "application/json"
+			case "application/json", "application/x-c15":
+				c["ct"] = jstr(b, "mt")
 				c["body"] = jsonText(g.value(bs, 0))
 			case "multipart/form-data":
 				var parts []any
@@ -1515,6 +1562,9 @@ func (g *c15Gen) call(kind string, doc map[string]any) map[string]any {
 		}
 		if g.r.Chance(20) {
 			opts = append(opts, "components")
+		}
+		if g.r.Chance(30) {
+			opts = append(opts, "customizer")
 		}
 		c["opts"] = opts
 	}
